@@ -116,6 +116,10 @@ def _macro_edits(sf: SourceFile, lo_tok: int, hi_tok: int) -> List[Tuple[int, in
                 rep = 'vp_log()'
             elif name == 'bail':
                 rep = 'return Err(vp_anyhow())'
+                # the format arguments are still evaluated (they take part in type inference and may have preconditions)
+                ma = re.match(r'\s*"(?:[^"\\]|\\.)*"\s*,\s*(.+?)\s*,?\s*$', inner, re.S)
+                if ma and not re.search(r'(?<![=!<>])=(?!=)', ma.group(1)):
+                    rep = '{ let _ = (%s,); return Err(vp_anyhow()) }' % ma.group(1)
             elif name == 'format':
                 rep = 'vp_format()'
             elif name in ('print', 'println'):
@@ -662,6 +666,104 @@ def extract_fn(unit: str, file: str, item: str, mode: str, contracts, canary: bo
                 info.lost.append(str(ev))
                 return True
             return False
+
+    # rule R31: `RECV.unwrap_or_else(|e| BODY)` is replaced by its definition `match RECV { Ok(vp_v) => vp_v, Err(e) => BODY }`
+    # (core::result::Result::unwrap_or_else; BODY must not `return` or use `?`).  The closure disappears, and with it the capture of
+    # mutable locals that Verus rejects.
+    # rule R32: `X OP= E;` on a user-defined type is its desugaring `X.METHOD(E);`
+    inlined_closure_bars = set()
+    if c and (c.inlines or c.opassigns):
+        def _match_fwd(k0):
+            d_ = 0
+            for k_ in range(k0, bhi + 1):
+                tx_ = toks[k_].text
+                if toks[k_].kind == 'punct':
+                    if tx_ in ('(', '[', '{'):
+                        d_ += 1
+                    elif tx_ in (')', ']', '}'):
+                        d_ -= 1
+                        if d_ == 0:
+                            return k_
+            return None
+        def _match_back(k0):
+            d_ = 0
+            for k_ in range(k0, blo, -1):
+                tx_ = toks[k_].text
+                if toks[k_].kind == 'punct':
+                    if tx_ in (')', ']', '}'):
+                        d_ += 1
+                    elif tx_ in ('(', '[', '{'):
+                        d_ -= 1
+                        if d_ == 0:
+                            return k_
+            return None
+        def _stmt_end2(k0):
+            d_ = 0
+            for k_ in range(k0, bhi):
+                tx_ = toks[k_].text
+                if toks[k_].kind == 'punct':
+                    if tx_ in ('(', '[', '{'):
+                        d_ += 1
+                    elif tx_ in (')', ']', '}'):
+                        d_ -= 1
+                        if d_ < 0:
+                            return None
+                    elif tx_ == ';' and d_ == 0:
+                        return k_
+            return None
+        if 'unwrap_or_else' in c.inlines:
+          with _Txn():
+            hits = [k for k in range(blo, bhi) if toks[k].text == 'unwrap_or_else' and toks[k - 1].text == '.' and toks[k + 1].text == '(' and toks[k + 2].text in ('|', '||')]
+            if not hits:
+                raise LostAnchor('%s: @inline unwrap_or_else: no call found' % fn_label)
+            for k in hits:
+                close = _match_fwd(k + 1)
+                bar2 = None
+                for w in range(k + 3, close):
+                    if toks[w].text == '|':
+                        bar2 = w
+                        break
+                if close is None or bar2 is None:
+                    raise LostAnchor('%s: @inline unwrap_or_else: unsupported closure' % fn_label)
+                body_txt = sf.text[toks[bar2].end:toks[close].start]
+                if re.search(r'\breturn\b|\?', body_txt):
+                    raise LostAnchor('%s: @inline unwrap_or_else: closure body has `return` or `?`' % fn_label)
+                pat = sf.text[toks[k + 2].end:toks[bar2].start].strip()
+                # receiver: a postfix expression ending right before the `.`
+                r = k - 2
+                while True:
+                    if toks[r].text in (')', ']'):
+                        r = _match_back(r)
+                        if r is None:
+                            raise LostAnchor('%s: @inline unwrap_or_else: unsupported receiver' % fn_label)
+                        r -= 1
+                        if toks[r + 1].text == '(' and (toks[r].kind == 'ident' or toks[r].text == '>'):
+                            continue
+                        r += 1
+                        break
+                    if toks[r].kind == 'ident' and toks[r - 1].text in ('.', '::'):
+                        r -= 2
+                        continue
+                    if toks[r].kind == 'ident':
+                        break
+                    raise LostAnchor('%s: @inline unwrap_or_else: unsupported receiver' % fn_label)
+                edits.append((toks[r].start, toks[r].start, 'match ', rw('R31')))
+                edits.append((toks[k - 1].start, toks[bar2].end, ' { Ok(vp_v) => vp_v, Err(%s) =>' % pat, rw('R31')))
+                edits.append((toks[close].start, toks[close].end, ' }', rw('R31')))
+                inlined_closure_bars.add(k + 2)
+                info.rewrites.append('R31:unwrap_or_else inlined')
+        for (op_, meth) in c.opassigns:
+          with _Txn():
+            hits = [k for k in range(blo, bhi) if toks[k].kind == 'punct' and toks[k].text == op_ and toks[k - 1].kind == 'ident']
+            if not hits:
+                raise LostAnchor('%s: @opassign %s: not found' % (fn_label, op_))
+            for k in hits:
+                end = _stmt_end2(k)
+                if end is None:
+                    raise LostAnchor('%s: @opassign %s: statement end not found' % (fn_label, op_))
+                edits.append((toks[k - 1].end, toks[k].end, '.%s(' % meth, rw('R32')))
+                edits.append((toks[end].start, toks[end].start, ')', rw('R32')))
+                info.rewrites.append('R32:%s -> .%s()' % (op_, meth))
 
     # rule R29: a `let mut X = E;` that a closure captures mutably (a hard error in Verus) becomes `let X = VpCell::vp_new(E);`
     # (std::cell::Cell semantics: the closure then captures `&X`).  Reads become `X.vp_get()`, assignments `X.vp_set(E)`;
